@@ -32,21 +32,23 @@ TriTag(f) == IF "seam" \in f THEN "seam" ELSE IF "near" \in f THEN "near"
 PairTag(f) == IF "near" \in f THEN "near" ELSE IF "bound" \in f THEN "bound"
               ELSE IF "seam" \in f THEN "seam" ELSE IF "antipodal" \in f THEN "antipodal" ELSE "generic"
 
-(* float-precision spaces cannot separate states closer than their resolution: positivity *)
-(* is not required of a pair whose every coordinate differs by less than 1e-4             *)
-PosRequired(c, f) == ~(c.prec = "float" /\ "nearall" \in S(f))
+(* positivity is required of a pair the space itself calls unequal and whose largest      *)
+(* coordinate separation (nano-units) exceeds the resolution logged for the space (0 for  *)
+(* the exact double-precision spaces; the Dubins / Reeds-Shepp shortcut, the quaternion   *)
+(* threshold and the float sphere are coarser)                                            *)
+PosRequired(c, sep) == sep > c.res
 
 TripleFails(c, e) ==
     LET ds == <<e.dab, e.dba, e.dbc, e.dcb, e.dac, e.dca, e.daa, e.dbb, e.dcc>>
         tol == c.tol
         all == S(e.fab) \cup S(e.fbc) \cup S(e.fac)
-        PosFail(eq, pos, f) == ~Positive(eq, pos) /\ PosRequired(c, f)
+        PosFail(eq, pos, sep) == ~Positive(eq, pos) /\ PosRequired(c, sep)
     IN  IF e.nan THEN {<<"finite", "">>}
         ELSE (IF NonNegative(ds, e.neg) THEN {} ELSE {<<"non-negative", "">>})
              \cup (IF Identity(e.daa, tol) /\ Identity(e.dbb, tol) /\ Identity(e.dcc, tol) THEN {} ELSE {<<"identity", "">>})
-             \cup (IF PosFail(e.eqab, e.posab, e.fab) THEN {<<"positivity", PairTag(S(e.fab))>>} ELSE {})
-             \cup (IF PosFail(e.eqbc, e.posbc, e.fbc) THEN {<<"positivity", PairTag(S(e.fbc))>>} ELSE {})
-             \cup (IF PosFail(e.eqac, e.posac, e.fac) THEN {<<"positivity", PairTag(S(e.fac))>>} ELSE {})
+             \cup (IF PosFail(e.eqab, e.posab, e.sab) THEN {<<"positivity", PairTag(S(e.fab))>>} ELSE {})
+             \cup (IF PosFail(e.eqbc, e.posbc, e.sbc) THEN {<<"positivity", PairTag(S(e.fbc))>>} ELSE {})
+             \cup (IF PosFail(e.eqac, e.posac, e.sac) THEN {<<"positivity", PairTag(S(e.fac))>>} ELSE {})
              \cup (IF c.sym /\ ~(Symmetric(e.dab, e.dba, tol) /\ Symmetric(e.dbc, e.dcb, tol) /\ Symmetric(e.dac, e.dca, tol))
                    THEN {<<"symmetry", "">>} ELSE {})
              \cup (IF c.metric /\ ~(Triangle(e.dac, e.dab, e.dbc, tol) /\ Triangle(e.dab, e.dac, e.dcb, tol)
@@ -65,7 +67,7 @@ InterpFails(c, e) ==
                    ELSE IF e.plusPi THEN {<<"in-bounds-plus-pi", "">>} ELSE {<<"in-bounds", "">>})
              \cup (IF AllSet(e.alF) THEN {} ELSE {<<"alias-from", "">>})
              \cup (IF AllSet(e.alT) THEN {} ELSE {<<"alias-to", "">>})
-             \cup (IF ~c.exempt /\ ~Reparameterised(e.rep, tol) THEN {<<"reparameterisation", "">>} ELSE {})
+             \cup (IF ~c.exempt /\ c.geo /\ ~Reparameterised(e.rep, tol) THEN {<<"reparameterisation", "">>} ELSE {})
              \cup (IF ~c.exempt /\ c.geo /\ \E i \in 1..Len(e.ks) : ~Proportional(e.dat[i], e.ks[i], e.dab, tol)
                    THEN {<<"proportionality", "">>} ELSE {})
 
@@ -83,7 +85,7 @@ TInit == l = 1 /\ ctx = [name |-> "none"] /\ viol = <<>>
                    compound |-> 0, unequal |-> 0, reparam |-> 0, proportional |-> 0, metricSpaces |-> 0]
 
 TSpace == /\ Is("Space")
-          /\ Ev.tol >= 0 /\ Ev.ext >= 0
+          /\ Ev.tol >= 0 /\ Ev.ext >= 0 /\ Ev.res >= 0
           /\ ctx' = Ev
           /\ cnt' = [cnt EXCEPT !.spaces = @ + 1, !.metricSpaces = @ + B(Ev.metric)]
           /\ UNCHANGED viol
@@ -97,7 +99,7 @@ TTriple == /\ Is("Triple") /\ ctx.name # "none"
 
 TInterp == /\ Is("Interp") /\ ctx.name # "none"
            /\ Record(InterpFails(ctx, Ev))
-           /\ cnt' = [cnt EXCEPT !.interps = @ + 1, !.reparam = @ + B(~ctx.exempt),
+           /\ cnt' = [cnt EXCEPT !.interps = @ + 1, !.reparam = @ + B(~ctx.exempt /\ ctx.geo),
                                  !.proportional = @ + B(~ctx.exempt /\ ctx.geo)]
            /\ UNCHANGED ctx
 
